@@ -311,3 +311,4 @@ def run(ctx):
                  'double free / use after free on an error path no test takes')
     shared.rule_single_owner(ctx, P, r)
     r.require_min(20, 'front-end call sites with pointer arguments')
+    ctx.borrow('c14', ['R14f'], 'the shared GF tables are a counted resource: an unbalanced reference frees them under a live instance or leaks them')
